@@ -404,6 +404,42 @@ class IoTr2(IoTr):
                     self.env = saved
                     if all(p for _t, p in cs):
                         return f'({d}.filter fun {x} => {binds}' + (' && '.join(t for t, _p in cs) or 'true') + ')', True, 'Dict'
+        if isinstance(e, ast.BoolOp) and isinstance(e.op, ast.Or) and len(e.values) == 2 and isinstance(e.values[0], ast.Name) \
+                and self.env.get(e.values[0].id, (None, None))[1] == 'Incl':
+            b, bp, bk = self.expr(e.values[1])
+            if bp and bk == ('List', 'Str'):
+                return f'(inclOr {self.env[e.values[0].id][0]} {b})', True, ('List', 'Str')
+        if isinstance(e, ast.Call) and isinstance(e.func, ast.Name) and e.func.id == 'set' and len(e.args) == 1 and not e.keywords \
+                and isinstance(e.args[0], ast.GeneratorExp):
+            t, k, pure = self.comp(e.args[0].elt, e.args[0].generators)
+            if pure and k == ('List', 'Str'):
+                return f'(strSet {t})', True, k
+        if isinstance(e, ast.DictComp) and len(e.generators) == 1 and isinstance(e.generators[0].target, ast.Name) \
+                and isinstance(e.key, ast.Name) and e.key.id == e.generators[0].target.id and not e.generators[0].ifs:
+            g = e.generators[0]
+            xs, ek = self.iterable(g.iter)
+            if ek == 'Str':
+                saved = dict(self.env)
+                x = self.gensym('key')
+                binds = self.bind_target(g.target, x, 'Str')
+                v, vp, vk = self.expr(e.value)
+                self.env = saved
+                if vp and vk == 'V':
+                    return f'({xs}.map fun {x} => {binds}({lname(g.target.id)}, V.toP {v}))', True, 'Dict'
+        if isinstance(e, ast.Call) and isinstance(e.func, ast.Attribute) and e.func.attr == 'to_wkt' and not e.args and not e.keywords:
+            t, tp, tk = self.expr(e.func.value)
+            if tp and tk == 'Shape':
+                return f'giOrErr {t}', False, 'GI'          # the per-shape adapter (not translated)
+        if isinstance(e, ast.Call) and u.startswith('gpd.GeoDataFrame(') and not e.args and [k.arg for k in e.keywords] == ['data', 'geometry']:
+            d, g = e.keywords[0].value, e.keywords[1].value
+            if isinstance(d, ast.Call) and ast.unparse(d.func) == 'pd.DataFrame' and len(d.args) == 1 and not d.keywords \
+                    and isinstance(g, ast.Call) and ast.unparse(g.func) == 'gpd.GeoSeries.from_wkt' and len(g.args) == 1 and not g.keywords:
+                def mk(a):
+                    if [x[1] for x in a] != [('List', 'Dict'), ('List', 'GI')]:
+                        self.bad(e, 'GeoDataFrame(data=DataFrame(rows), geometry=GeoSeries.from_wkt(texts)) at other types')
+                    return f'pure (GpdFrameW.mk {a[0][0]} {a[1][0]})'
+                t, _p = self.bind_args([d.args[0], g.args[0]], mk)
+                return t, False, 'FrameW'
         if isinstance(e, ast.List) and not e.elts and getattr(self, 'empty_list_kind', None):
             return f'([] : {lean_t(self.empty_list_kind)})', True, self.empty_list_kind
         return None
@@ -565,6 +601,10 @@ class IoTr2(IoTr):
             t, pure, k = self.expr(s.value.args[0])
             if pure and k == ('List', 'Shape'):
                 return f'pure {t}'
+        if isinstance(s, ast.Return) and s.value is not None and getattr(self, 'ret_kind', None):
+            t, pure, k = self.expr(s.value)
+            if k == self.ret_kind:
+                return f'pure {t}' if pure else t
         if isinstance(s, ast.For) and not s.orelse:
             return self.for_stmt(s, rest, fall)
         if isinstance(s, ast.Expr) and isinstance(s.value, ast.Call) and isinstance(s.value.func, ast.Attribute) \
@@ -686,7 +726,8 @@ class Fn:
 KIND_TYPE = {'V': 'V', 'Str': 'String', 'Dict': 'Dict PVal', 'Shape': 'Shape', 'Nat': 'Nat', 'PVal': 'PVal', 'PTag': 'PTag',
              'TagDict': 'Dict PTag', 'Incl': 'Option (List String)', 'Writer': 'WriterS', 'Out': 'List ShpFileW', 'Path': 'Unit',
              'Coll': 'List Shape', 'Archive': 'List Member', 'Member': 'Member', 'Reader': 'ShpFileR', 'ShpShape': 'ShpShapeR',
-             'ClassMap': 'List (String × Kind)', 'Kind': 'Kind', 'NoneT': 'Unit'}
+             'ClassMap': 'List (String × Kind)', 'Kind': 'Kind', 'NoneT': 'Unit', 'GI': 'GI', 'FrameW': 'GpdFrameW', 'Frame': 'GpdFrameR',
+             'GRow': 'GpdRowR'}
 
 
 def find_def(tree, qual):
@@ -759,11 +800,14 @@ class IoUnit:
         elif f.reader:
             tr = IoTr2(f.qual, node, env, f.nt, f.lean, f.localfns)
             tr.empty_list_kind = ('List', 'Shape')
+            tr.ret_kind = getattr(f, 'ret_kind', None)
             tr.ret_bare = None
             body = tr.block(list(node.body), fall='.error "ERR:NoReturn"')
             for a_ in tr.shared['aux']:
                 pre += a_.split('\n') + ['']
             ret = 'Except String (List Shape)'
+            if getattr(f, 'ret_kind', None):
+                ret = f'Except String {_par(lean_t(f.ret_kind))}'
         else:
             tr = IoTr(f.qual, node, env, f.nt)
             body = tr.block(list(node.body))
@@ -797,6 +841,10 @@ def unit():
             doc='at `read_layers=None`; the archive is the list of its members')
     rd.reader = True
     fns.append(rd)
+    tg = Fn('CollectionBase.to_geopandas', 'toGeopandas', [('self', 'Coll'), ('include_properties', 'Incl')], nt='true',
+            doc='what reaches `pd.DataFrame` / `GeoSeries.from_wkt`')
+    tg.reader, tg.ret_kind = True, 'FrameW'
+    fns.append(tg)
     pins = {
         'time.py::TimeInterval.__init__': PIN_TI,        # `V.mkTI`
         '_base.py::BaseShape.__init__': PIN_BASE,        # `dtOfArg`
